@@ -52,6 +52,8 @@ void fsshim_configure(const char *prefix, const char *target, int mode, int fail
     memset(g_fdscope, 0, sizeof g_fdscope);
     memset(g_fdtarget, 0, sizeof g_fdtarget);
 }
+static int g_edit_keep_times = 0;
+void fsshim_set_edit_keep_times(int on) { g_edit_keep_times = on; }
 static long g_edit_k = -1; static char g_edit_path[4096]; static char g_edit_data[8192]; static size_t g_edit_len = 0;
 void fsshim_set_edit(long k, const char *path, const char *data) {
     g_edit_k = k; strncpy(g_edit_path, path ? path : "", sizeof g_edit_path - 1);
@@ -103,8 +105,14 @@ static int gate(long *kout, const char *op, const char *path, int visible) {
     if ((g_mode & 32) && k == g_edit_k && g_edit_path[0]) {
         REAL(openat); REAL(close);
         g_busy = 1;
-        int fd = real_openat(AT_FDCWD, g_edit_path, O_WRONLY | O_CREAT | O_TRUNC, 0644);
-        if (fd >= 0) { raw_write(fd, g_edit_data, g_edit_len); real_close(fd); }
+        struct stat st0; int have = 0;
+        int fd = real_openat(AT_FDCWD, g_edit_path, O_WRONLY | O_CREAT, 0644);
+        if (fd >= 0) {
+            have = (fstat(fd, &st0) == 0);
+            if (ftruncate(fd, 0) == 0) raw_write(fd, g_edit_data, g_edit_len);
+            if (g_edit_keep_times && have) { struct timespec ts[2] = { st0.st_atim, st0.st_mtim }; futimens(fd, ts); }   /* rsync -t / cp -p style */
+            real_close(fd);
+        }
         g_busy = 0;
         logline(k, "EDIT", g_edit_path, op, fd >= 0 ? (long)g_edit_len : -1, 0);
     }
